@@ -68,10 +68,22 @@ theorem resolve_inGenerations_valid (d : Value) (g : Graph) (h : resolve d = .ok
     validGraph (inGenerations g) = true :=
   inGenerations_valid g (resolve_valid d g h)
 
-/-- `Graph.rename_demes()` of a graph the library handed out, for every injective renaming to
-identifiers -/
+/-- the renaming underlying `Graph.rename_demes()`, on a graph the library handed out, for every
+injective renaming to identifiers -/
 theorem resolve_rename_valid (d : Value) (g : Graph) (h : resolve d = .ok g) (r : Renaming)
     (hok : RenameOK g r) : validGraph (renameDemes g r) = true :=
   rename_valid g r (resolve_valid d g h) hok
+
+/-- `Graph.rename_demes()` (with its validation of the resulting names, repair of F23) of a graph
+the library handed out: whatever it returns is valid — for EVERY renaming -/
+theorem resolve_renameChecked_valid (d : Value) (g : Graph) (h : resolve d = .ok g) (r : Renaming)
+    (g' : Graph) (hr : renameDemesChecked g r = .ok g') : validGraph g' = true :=
+  renameChecked_valid g r g' (resolve_valid d g h) hr
+
+/-- non-vacuity: the checked function accepts renamings of valid graphs (and see the examples of
+`Theorems/C15.lean`, section 6) -/
+example : validGraph Proofs.exampleGraph = true
+    ∧ (renameDemesChecked Proofs.exampleGraph [("A", "B"), ("B", "A")]).toOption.isSome = true := by
+  decide +kernel
 
 end Demes.Theorems
